@@ -2264,3 +2264,112 @@ def interpreted_pm6_core_core(repo):
                        f"interaction energy at every distance")
             out.append((method, name, ok, msg))
     return out
+
+
+# ------------------------------------------------------------------------------------------------------------------------------------------------
+# C12-R1 / R3 (and the ZeroOnPad fact about the noise amplitude used by C13-R4): the Langevin coefficients by value
+# ------------------------------------------------------------------------------------------------------------------------------------------------
+def interpreted_langevin_coefficients(repo):
+    """Molecular_Dynamics_Langevin.initialize is interpreted (sa.npsym) on a driver object with symbolic time step, damping time and target temperature and a molecule with
+    symbolic inverse masses (padded batch, 2 x 2 atoms); the parent initialisation is a stand-in that records whether the coefficients were in place when it ran.  Whatever
+    helpers, records or temporaries the routine uses, the values it leaves in `langevin_c1` / `langevin_c2` must satisfy, identically in dt, damp, T and the masses,
+        c1 = exp(-dt / (2 damp))                                    (half-step friction of the Bussi-Parrinello O-V-O scheme)
+        c1^2 + c2^2 / (T * mass_inverse * VEL_SCALE^2) = 1          (fluctuation-dissipation, per atom)
+    and a second initialize() on the same object after its settings changed must give the coefficients of the *new* settings (no memo), the parent must run after the
+    coefficients are set, a driver without damping time must still initialise.  Returns {"ok", "messages", "c1", "c2", "symbols", "zero_on_pad"}."""
+    import numpy as np
+    import sympy as sp
+    from .loader import AnalysisError
+    from .npsym import Instance, NpSym, Raised
+    md = repo.mod("seqm/MolecularDynamics.py")
+    q = "Molecular_Dynamics_Langevin.initialize"
+    if q not in md.functions:
+        raise AnalysisError(f"{q} not found")
+    VEL = sp.nsimplify(NpSym(repo).global_value(md, "CONSTANTS").VEL_SCALE)
+    msgs = []
+
+    def setting(tag):
+        dt, damp, T = sp.symbols(f"dt{tag} damp{tag} T{tag}", positive=True)
+        w = np.array([[[sp.Symbol(f"w{tag}_{m}{a}", positive=True)] for a in range(2)] for m in range(2)], dtype=object)
+        return dt, damp, T, w
+
+    def molecule(w):
+        x = np.array([[[sp.Symbol(f"x{m}{a}{c}") for c in range(3)] for a in range(2)] for m in range(2)], dtype=object)
+        return types.SimpleNamespace(coordinates=x, mass_inverse=w.copy(), velocities=None, acc=None, force=None, dm=None, cis_amplitudes=None,
+                                     const=types.SimpleNamespace(do_timing=False, timing={"MD": []}))
+
+    def run_init(selfobj, mol):
+        seen = {}
+
+        def parent(*a, **k):
+            seen["c1"] = getattr(selfobj, "langevin_c1", None)
+            seen["c2"] = getattr(selfobj, "langevin_c2", None)
+            seen["called"] = seen.get("called", 0) + 1
+            return None
+        I = NpSym(repo, stubs={"super().initialize": parent, "print": lambda *a, **k: None})
+        try:
+            I.call_function(md, md.func(q), [selfobj, mol])
+        except Raised as e:
+            return None, f"initialize() raises: {str(e)[:100]}"
+        return seen, ""
+
+    def coefficient_errors(seen, dt, damp, T, w, what):
+        errs = []
+        c1, c2 = seen.get("c1"), seen.get("c2")
+        if c1 is None or c2 is None:
+            return [f"{what}: initialize() hands control to the parent initialisation without having set " +
+                    " and ".join(n for n, v in (("langevin_c1", c1), ("langevin_c2", c2)) if v is None) +
+                    " from the current settings (a coefficient computed elsewhere goes stale when time step, damping time, temperature or masses change)"]
+        c1s = [sp.sympify(t) for t in np.asarray(c1, dtype=object).reshape(-1)]
+        if any(sp.simplify(t - sp.exp(-dt / (2 * damp))) != 0 for t in c1s):
+            errs.append(f"{what}: c1 = {c1s[0]} is not the half-step friction factor exp(-dt/(2 damp)) of the current settings")
+        c2a = np.asarray(c2, dtype=object)
+        try:
+            c2b = np.broadcast_to(c2a, w.shape) if c2a.shape != w.shape else c2a
+        except ValueError:
+            return errs + [f"{what}: langevin_c2 has shape {c2a.shape}, not one amplitude per atom {w.shape}"]
+        for idx in np.ndindex(*w.shape):
+            ident = sp.simplify(c1s[0] ** 2 + sp.sympify(c2b[idx]) ** 2 / (T * w[idx] * VEL ** 2) - 1)
+            if ident != 0:
+                errs.append(f"{what}: fluctuation-dissipation relation broken for atom {idx[:2]}: c1^2 + c2^2/(k_B T/m) - 1 = {sp.simplify(ident)} (c1 = {c1s[0]}, c2 = {c2b[idx]}); "
+                            f"the stationary temperature differs from the target")
+                break
+        return errs
+    # (a) first initialisation
+    dt, damp, T, w = setting("a")
+    selfobj = Instance(md, "Molecular_Dynamics_Langevin", timestep=dt, damp=damp, Temp=T)
+    seen, err = run_init(selfobj, molecule(w))
+    if seen is None:
+        return {"ok": False, "messages": [err], "c1": None, "c2": None, "symbols": None, "zero_on_pad": False}
+    if not seen.get("called"):
+        msgs.append("initialize() of the Langevin engine does not run the parent initialisation")
+    first = dict(seen)
+    msgs += coefficient_errors(seen, dt, damp, T, w, "fresh driver")
+    # (b) same object, new settings
+    dt2, damp2, T2, w2 = setting("b")
+    selfobj.timestep, selfobj.damp, selfobj.Temp = dt2, damp2, T2
+    seen2, err = run_init(selfobj, molecule(w2))
+    if seen2 is None:
+        msgs.append("second " + err)
+    else:
+        msgs += coefficient_errors(seen2, dt2, damp2, T2, w2, "second initialize() on the same driver after its time step / damping time / temperature / masses changed")
+    # (c) no damping time
+    plain = Instance(md, "Molecular_Dynamics_Langevin", timestep=dt, damp=None, Temp=T)
+    seen3, err = run_init(plain, molecule(w))
+    if seen3 is None:
+        msgs.append("without a damping time " + err)
+    elif not seen3.get("called"):
+        msgs.append("without a damping time initialize() does not run the parent initialisation")
+    c1 = first.get("c1")
+    c2 = first.get("c2")
+    zero_on_pad = False
+    if c2 is not None:
+        c2a = np.asarray(c2, dtype=object)
+        try:
+            c2b = np.broadcast_to(c2a, w.shape)
+            zero_on_pad = all(sp.simplify(sp.sympify(c2b[idx]).subs(w[idx], 0)) == 0 for idx in np.ndindex(*w.shape))
+        except ValueError:
+            zero_on_pad = False
+    return {"ok": not msgs, "messages": msgs, "c1": None if c1 is None else sp.sympify(np.asarray(c1, dtype=object).reshape(-1)[0]),
+            "c2": None if c2 is None else sp.sympify(np.broadcast_to(np.asarray(c2, dtype=object), w.shape)[0, 0, 0]) if zero_on_pad or c2 is not None else None,
+            "symbols": {"dt": dt, "damp": damp, "Temp": T, "minv": w[0, 0, 0], "VEL": VEL}, "zero_on_pad": zero_on_pad}
